@@ -1,0 +1,31 @@
+//go:build verif
+
+// Contracts for govc (see /verif/DESIGN.md). Comment-only; compiled only with -tags verif.
+
+package obase
+
+//@ property C06
+
+// lastbufid / lasttag: ghost - the id and tag the last pipeline was started with
+//@ ghost var lastbufid string
+//@ ghost var lasttag string
+// "bufferID must be unique inside the parent orchestrator" (pipelines.go): the starter keeps both for the life of the
+// pipeline (queue directory name, tag of every chunk). Trusted.
+//@ extern func obase.PipelineStarter(parentLogger logger.Logger, metricCreator promreg.MetricCreator, input <-chan []*base.LogRecord, bufferID string, outputTag string, onStopped func())
+//@   requires[id-is-a-permanent-copy] !shared(bufferID)
+//@   modifies lastbufid, lasttag
+//@   ghostset lastbufid := bufferID
+//@   ghostset lasttag := outputTag
+
+// the tag is the expansion of the template over exactly the given key values
+//@ func (m *TagBuilder) Build(keyValues []string) string
+//@   requires m != nil && forall k int :: 0 <= k && k < len(m.tagExpander.partProviders) ==> m.tagExpander.partProviders[k] != nil
+//@   modifies m.tagBuffer, m.tagBuffer[:]
+//@   ensures[single-part] len(m.tagExpander.partProviders) == 1 ==> result === stringtemplate.ppval(ref(m.tagExpander.partProviders[0]), keyValues)
+//@   ensures[length-is-sum-of-parts] len(m.tagExpander.partProviders) != 1 ==> len(result) == stringtemplate.elen(m.tagExpander, keyValues, len(m.tagExpander.partProviders))
+//@   ensures[copy-unless-single-part] len(m.tagExpander.partProviders) != 1 ==> !shared(result)
+
+// a key-field variable of the tag template yields that key's own value
+//@ func (li tagKeyFieldIndex) provideLabelSetTemplatePart(labelValues []string) string
+//@   requires 0 <= li && li < len(labelValues)
+//@   ensures result === labelValues[li]
